@@ -144,7 +144,7 @@ let run (toks : string list) : string =
              | "m5short" | "m5empty" -> ignore (send (Hap.PSKeyExch (Hap.KSession, Hap.ITampered, true)))
              | "m5inner" -> ignore (send (Hap.PSKeyExch (Hap.KSession, Hap.IMalformed, false)))
              | "m5zerokey" -> ignore (send (Hap.PSKeyExch (Hap.KZero, gen, false)))
-             | "m5randkey" -> ignore (send (Hap.PSKeyExch (Hap.KOther, gen, false)))
+             | "m5randkey" | "m5of_a" | "m5of_b" | "m5of_c" -> ignore (send (Hap.PSKeyExch (Hap.KOther, gen, false)))
              | "m5wrongsigner" | "m5zerosig" | "m5nosig" | "m5othersig" -> ignore (send (Hap.PSKeyExch (Hap.KSession, Hap.IBadSig (name, pk), false)))
              | "replayok" ->
                (* a transcript recorded on another exchange: the proof was made for another accessory key, the key
@@ -288,6 +288,12 @@ let run (toks : string list) : string =
                 | "pairings" -> Hap.EPairingsAdd (ascii "intruder", keyid "intruder")
                 | "pairings-remove" -> Hap.EPairingsRemove (ascii "c0")
                 | "resource" -> Hap.EResource
+                | "get-missing" -> Hap.ECharsGet ([cid_of "9.99"; cid_of "1.999"], true)
+                | "get-writeonly" -> Hap.ECharsGet ([cid_of "1.2"; cid_of "4.11"], true)
+                | "get-one" -> Hap.ECharsGet ([cid_of "2.9"], true)
+                | "put-readonly" -> Hap.ECharsPut [((cid_of "4.12", Some (Charac.VInt (z_of_int 9))), None)]
+                | "put-noevents" -> Hap.ECharsPut [((cid_of "4.13", None), Some (Hap.EvBool true))]
+                | "put-missing" -> Hap.ECharsPut [((cid_of "9.99", Some (Charac.VInt (z_of_int 1))), None)]
                 | _ -> Hap.EIdentify) in
             let r = step (Hap.OReq (conn c, Hap.TPlain, e)) in
             (match r with Hap.RClosed | Hap.RHttp400Closed | Hap.RNoConn -> Hashtbl.replace dead c true | _ -> ());
